@@ -38,6 +38,18 @@ def close(a, b, tol=T6):
              for x, y in zip(la, lb))
 
 
+def dtypes(tree):
+  return [str(jnp.asarray(x).dtype) for x in jax.tree_util.tree_leaves(tree)]
+
+
+PDTYPES = {'f32': jnp.float32, 'bf16': jnp.bfloat16, 'f16': jnp.float16}
+# same operations on both sides; low-precision parameters are compared at
+# their own resolution
+TOL = {'f32': T6, 'bf16': dict(rtol=2e-2, atol=1e-2),
+       'f16': dict(rtol=4e-3, atol=2e-3)}
+DT = st.sampled_from(['f32', 'f32', 'bf16', 'f16'])
+
+
 def bits(tree):
   return [(np.asarray(x).dtype.str, np.asarray(x).shape,
            np.asarray(x).tobytes()) for x in jax.tree_util.tree_leaves(tree)]
@@ -94,22 +106,29 @@ def ts_case():
       'tree': tree_strategy(), 'tx': st.sampled_from(TX),
       'lr': st.sampled_from([0.1, 0.01, 1.0]), 'steps': st.integers(1, 5),
       'frozen': st.booleans(), 'owg': st.booleans(),
+      # parameter dtype and whether gradients come in float32 regardless
+      'pdtype': DT, 'g32': st.booleans(),
       'seed': st.integers(0, 2**16)})
 
 
 @clause('linen_trainstate', strategy=ts_case, quick=250, thorough=10000,
         quick_shards=10, thorough_shards=16, shrink=False,
-        rule='random nested parameter trees (dict / FrozenDict) x 11 optax '
+        rule='random nested parameter trees (dict / FrozenDict; float32 / '
+        'bfloat16 / float16, gradients in the same dtype or float32) x 11 optax '
         'transformations (stateless, momentum, adam(w), rmsprop, clipping '
         'chains, schedules, MultiSteps) x 1-5 gradient steps: after every '
         'TrainState.apply_gradients, params, every opt_state leaf and step '
-        'equal the hand-written optax loop; the previous TrainState instance '
+        'equal the hand-written optax loop in value and dtype; the previous TrainState instance '
         'is bit-unchanged; apply_fn/tx untouched; OVERWRITE_WITH_GRADIENT '
         'collection is replaced by its gradient; non-trivial = stateful '
         'transformation and >=2 steps')
 def linen_trainstate(case, ctx):
   rng = np.random.default_rng(case['seed'])
   params = build_tree(case['tree'], rng)
+  pdt = case.get('pdtype', 'f32')
+  tol = TOL[pdt]
+  gdt = jnp.float32 if case.get('g32', True) else PDTYPES[pdt]
+  params = jax.tree_util.tree_map(lambda a: a.astype(PDTYPES[pdt]), params)
   if case['frozen']:
     params = freeze(params)
   owg = None
@@ -129,7 +148,7 @@ def linen_trainstate(case, ctx):
   require(close(ts.opt_state, s_ref), 'initial opt_state != tx.init(params)')
   for i in range(case['steps']):
     g = jax.tree_util.tree_map(
-        lambda p: jnp.asarray(rng.uniform(-1, 1, size=p.shape), jnp.float32),
+        lambda p: jnp.asarray(rng.uniform(-1, 1, size=p.shape), gdt),
         params)
     if owg is not None:
       g_owg = {'scale': jnp.asarray(rng.uniform(-1, 1, (2,)), jnp.float32)}
@@ -149,18 +168,25 @@ def linen_trainstate(case, ctx):
             f'{i + 1} updates')
     got_p = ts.params['params'] if owg is not None else ts.params
     require(jax.tree_util.tree_structure(got_p) ==
-            jax.tree_util.tree_structure(p_ref) and close(got_p, p_ref),
+            jax.tree_util.tree_structure(p_ref) and close(got_p, p_ref, tol),
             lambda: f'params after step {i + 1} differ from the optax loop '
             f'({case["tx"]})')
+    require(dtypes(got_p) == dtypes(p_ref), lambda: f'params after step '
+            f'{i + 1} have dtypes {dtypes(got_p)}, tx.update + optax.'
+            f'apply_updates by hand gives {dtypes(p_ref)}')
     require(jax.tree_util.tree_structure(ts.opt_state) ==
-            jax.tree_util.tree_structure(s_ref) and close(ts.opt_state, s_ref),
+            jax.tree_util.tree_structure(s_ref) and close(ts.opt_state, s_ref,
+                                                          tol),
             lambda: f'opt_state after step {i + 1} differs ({case["tx"]})')
+    require(dtypes(ts.opt_state) == dtypes(s_ref), lambda: f'opt_state dtypes '
+            f'{dtypes(ts.opt_state)} != {dtypes(s_ref)}')
     if owg is not None:
       require(bits(ts.params[train_state.OVERWRITE_WITH_GRADIENT]) == bits(
           g_owg), 'OVERWRITE_WITH_GRADIENT collection is not the gradient')
     require(ts.apply_fn is fn and ts.tx is tx, 'apply_fn / tx changed')
   ctx.note(labels=[case['tx'], 'owg' if case['owg'] else 'plain',
-                   'frozen' if case['frozen'] else 'dict'],
+                   'frozen' if case['frozen'] else 'dict', pdt,
+                   'g32' if case.get('g32', True) else 'gsame'],
            nontrivial=case['tx'] not in ('sgd', 'sched_sgd')
            and case['steps'] >= 2)
 
@@ -193,12 +219,15 @@ def nnx_case():
       'lr': st.sampled_from([0.1, 0.01]), 'steps': st.integers(1, 4),
       'wrt': st.sampled_from(sorted(WRT)), 'api': st.sampled_from(
           ['optimizer', 'trainstate']),
+      'pdtype': DT, 'g32': st.booleans(),
       'seed': st.integers(0, 2**16)})
 
 
 @clause('nnx_optimizer', strategy=nnx_case, quick=250, thorough=10000,
         quick_shards=10, thorough_shards=16, shrink=False,
-        rule='nested NNX models x 11 optax transformations x wrt filters '
+        rule='nested NNX models (float32 / bfloat16 / float16 Variables, '
+        'gradients in the same dtype or float32) x 11 optax transformations '
+        'x wrt filters '
         '(Param, a custom Variable type, Any, All+PathContains, BatchStat) x '
         '1-4 steps through nnx.Optimizer.update and nnx.TrainState.'
         'apply_gradients: selected Variables and every opt_state leaf equal '
@@ -209,6 +238,13 @@ def nnx_case():
 def nnx_optimizer(case, ctx):
   rng = np.random.default_rng(case['seed'])
   model = Model(rng, case['depth'])
+  pdt = case.get('pdtype', 'f32')
+  tol = TOL[pdt]
+  gdt = jnp.float32 if case.get('g32', True) else PDTYPES[pdt]
+  if pdt != 'f32':
+    for _, var in nnx.graph.iter_graph(model):
+      if isinstance(var, nnx.Variable):
+        var.value = var.value.astype(PDTYPES[pdt])
   wrt = WRT[case['wrt']]
   tx, tx_ref = make_tx(case['tx'], case['lr']), make_tx(case['tx'],
                                                          case['lr'])
@@ -231,7 +267,7 @@ def nnx_optimizer(case, ctx):
   for i in range(case['steps']):
     g_pure = jax.tree_util.tree_map(
         lambda p: jnp.asarray(rng.uniform(-1, 1, size=np.shape(p)),
-                              jnp.float32), p_ref)
+                              gdt), p_ref)
     u, s_ref = tx_ref.update(g_pure, s_ref, p_ref)
     p_ref = optax.apply_updates(p_ref, u)
     if case['api'] == 'optimizer':
@@ -250,7 +286,7 @@ def nnx_optimizer(case, ctx):
                   is_leaf=lambda v: isinstance(v, nnx.Variable))))
       require(len(got_s) == len(jax.tree_util.tree_leaves(s_ref)) and all(
           np.allclose(np.asarray(a, np.float64), np.asarray(b, np.float64),
-                      **T6) for a, b in zip(got_s, jax.tree_util.tree_leaves(
+                      **tol) for a, b in zip(got_s, jax.tree_util.tree_leaves(
                           s_ref))),
           lambda: f'opt_state after step {i + 1} differs from the optax loop '
           f'({case["tx"]})')
@@ -266,12 +302,16 @@ def nnx_optimizer(case, ctx):
               'previous instance')
       require(int(ts.step) == i + 1, 'nnx.TrainState step')
       got = nnx.to_pure_dict(ts.params)
-      require(close(ts.opt_state, s_ref), lambda: f'opt_state after step '
-              f'{i + 1} differs ({case["tx"]})')
+      require(close(ts.opt_state, s_ref, tol), lambda: f'opt_state after '
+              f'step {i + 1} differs ({case["tx"]})')
     require(jax.tree_util.tree_structure(got) ==
-            jax.tree_util.tree_structure(p_ref) and close(got, p_ref),
+            jax.tree_util.tree_structure(p_ref) and close(got, p_ref, tol),
             lambda: f'selected Variables after step {i + 1} differ from the '
             f'optax loop ({case["tx"]}, wrt={case["wrt"]})')
+    require(dtypes(got) == dtypes(p_ref), lambda: f'selected Variables after '
+            f'step {i + 1} have dtypes {dtypes(got)}, tx.update + optax.'
+            f'apply_updates by hand gives {dtypes(p_ref)} (params {pdt}, '
+            f'grads {"float32" if case.get("g32", True) else pdt})')
   if case['api'] == 'optimizer':
     after = {p: np.asarray(v.value) for p, v in statelib.to_flat_state(
         nnx.state(model))}
@@ -279,7 +319,8 @@ def nnx_optimizer(case, ctx):
       if p not in sel_paths:
         require(np.array_equal(after[p], val), lambda: f'Variable {p} is '
                 f'outside wrt={case["wrt"]} but changed')
-  ctx.note(labels=[case['api'], case['wrt'], case['tx']],
+  ctx.note(labels=[case['api'], case['wrt'], case['tx'], pdt,
+                   'g32' if case.get('g32', True) else 'gsame'],
            nontrivial=case['wrt'] != 'Param' or case['depth'] >= 1)
 
 
